@@ -29,7 +29,7 @@ def run(p: Program, rep: Report, tier: str) -> None:
     rep.assume("ServerSentEvent['data'] is a str (TypedDict in baize/typing.py); single-line event/id are the statement's restriction")
     F = Folder(p)
     mod = p.module("baize.responses")
-    fn = mod.functions.get("build_bytes_from_sse")
+    fn = p.function("baize.responses", "build_bytes_from_sse")
     if fn is None:
         raise AnalysisError("build_bytes_from_sse vanished")
     rep.analysed(fn.fq)
